@@ -6,9 +6,9 @@ COMPONENTS = ["grpcmessage", "utf8"]
 T4 = ["GrpcMessage"]
 PROOF_MODULES = ["GrpcProofs.Properties.C08"]
 THEOREMS = ["GrpcProofs.C08." + t for t in (
-    "encode_printable", "roundtrip_valid", "roundtrip_any", "sanitize_spec", "sanitize_valid_iff",
-    "decode_never_panics", "encode_eq_unchecked", "decode_eq_unchecked",
-    "decode_plain_id", "valid_iff_wellFormed")]
+    "encode_printable", "roundtrip_any", "roundtrip_valid", "sanitize_spec", "sanitize_valid_iff",
+    "valid_iff_wellFormed", "decode_never_panics", "encode_eq_unchecked", "decode_eq_unchecked",
+    "decode_plain_id")]
 DESIGN_REF = "DESIGN.md section 8, C08"
 TECHNIQUE = ("Lean 4 theorems (induction over the decode loop, Nat bit-arithmetic lemmas for the UTF-8 encode/decode inverse) "
              "+ T1 differential correspondence of the codec AND of the unicode/utf8 primitive model + T4 regenerated constants")
@@ -24,16 +24,17 @@ LEVEL_NOTE = ("Trusted: Lean kernel; the hand models lean/GrpcModel/Model/GrpcMe
 GAP = "fmt.Fprintf/strconv.ParseUint/strings.Builder are modelled (exhaustively exercised on their 1- and 2-byte domains), not verified"
 ASSUMPTIONS = ["Go strings are byte sequences; string(rune) is runtime.encoderune",
                "strconv.ParseUint(s,16,8) on exactly 2 bytes accepts exactly two hex digits of either case"]
-RULE = ("utf8 dec: every string of length <= 2, every lead byte x boundary 2nd/3rd/4th bytes, random; utf8 enc: every rune boundary "
+RULE = ("utf8 dec: every 1-byte string, every 2-byte string with one byte arbitrary and the other on a class boundary (thorough: all 65536), every lead byte x boundary 2nd/3rd/4th bytes, random; utf8 enc: every rune boundary "
         "+ random (thorough: every 7th rune plus all boundaries); valid/san and grpcmessage rt/enc/encu: all 1-byte strings, 2-byte strings over "
         "boundary bytes, random strings <= 64 bytes built from valid runes, truncated runes, surrogates, overlongs, stray continuation "
-        "bytes, '%' and hex digits; dec/decu: '%XY' for all X (256) x boundary Y and vice versa (thorough: all 65536), "
+        "bytes, '%' and hex digits; dec/decu: '%XY' with X arbitrary and Y on a hex-class boundary and vice versa (thorough: all 65536 XY), "
         "random strings biased to '%' near the end. One op per line; an op is non-trivial when its input is non-empty.")
 
 BOUND2 = [0x00, 0x1f, 0x20, 0x25, 0x30, 0x41, 0x7e, 0x7f, 0x80, 0x8f, 0x90, 0x9f, 0xa0, 0xbf, 0xc0, 0xc1, 0xc2, 0xdf, 0xe0, 0xed,
           0xef, 0xf0, 0xf4, 0xf5, 0xff]
 HEXB = [0x00, 0x20, 0x25, 0x2b, 0x2d, 0x2f, 0x30, 0x31, 0x39, 0x3a, 0x40, 0x41, 0x46, 0x47, 0x5f, 0x60, 0x61, 0x66, 0x67, 0x78,
         0x58, 0x7f, 0x80, 0xff]
+CONT2 = sorted(set(BOUND2 + [0x7f, 0x81, 0x8e, 0x91, 0x9e, 0xa1, 0xbe, 0xc3, 0xde, 0xe1, 0xec, 0xee, 0xf1, 0xf3, 0xf6, 0xfe]))
 RUNES = [0, 1, 0x1f, 0x20, 0x24, 0x25, 0x26, 0x7e, 0x7f, 0x80, 0x81, 0xff, 0x100, 0x7ff, 0x800, 0x801, 0xfff, 0x1000, 0xcfff, 0xd000,
          0xd7ff, 0xd800, 0xd801, 0xdbff, 0xdc00, 0xdfff, 0xe000, 0xfffc, 0xfffd, 0xfffe, 0xffff, 0x10000, 0x10001, 0x3ffff, 0x40000,
          0xfffff, 0x100000, 0x10ffff, 0x110000, 0x110001, 0x1fffff, 0x200000, 0x7fffffff]
@@ -103,14 +104,16 @@ def batches(comp, ops, tag, chunk=5000):
 
 
 def gen(rng, tier):
-    n_rand = {"quick": 6000, "thorough": 150000, "search": 60000}[tier]
+    n_rand = {"quick": 5000, "thorough": 200000, "search": 80000}[tier]
+    full = tier != "quick"
     # ---------------------------------------------------------------- utf8 primitive
     dec = set()
     dec.add(())
     for a in range(256):
         dec.add((a,))
-        for b in range(256):
+        for b in (range(256) if full else CONT2):
             dec.add((a, b))
+            dec.add((b, a))
     for a in range(0xc0, 0x100):
         for b in (0x7f, 0x80, 0x8f, 0x90, 0x9f, 0xa0, 0xbf, 0xc0):
             for c in (0x00, 0x7f, 0x80, 0xbf, 0xc0):
@@ -157,7 +160,6 @@ def gen(rng, tier):
         gops.append("enc %s" % hexs(m))
         gops.append("encu %s" % hexs(m))
     hdr = set()
-    full = tier != "quick"
     for x in range(256):
         for y in (range(256) if full else HEXB):
             hdr.add((0x25, x, y))
@@ -174,9 +176,10 @@ def gen(rng, tier):
         hdr.add(tuple(rand_hdr(rng)))
     hdr.update(list(sorted(msgs))[::5])
     hdr.add(())
-    for h in sorted(hdr):
+    for k, h in enumerate(sorted(hdr)):
         gops.append("dec %s" % hexs(h))
-        gops.append("decu %s" % hexs(h))
+        if full or k % 2 == 0:
+            gops.append("decu %s" % hexs(h))
     yield from batches("grpcmessage", gops, "grpcmessage")
 
 
